@@ -4,6 +4,7 @@
 package main
 
 import (
+	sdk "github.com/cosmos/cosmos-sdk/types"
 	"bufio"
 	"encoding/json"
 	"flag"
@@ -18,7 +19,16 @@ func runHistory(hs uint64, steps int, profile string, wr *bufio.Writer) {
 	enc := json.NewEncoder(wr)
 	c, rejected := sim.TryNewChain(sim.GenesisForProfile(profile, hs))
 	if rejected != "" {
-		// the application refuses this genesis: there is no chain, hence no history
+		// the application refuses this genesis: there is no chain, hence no history — only the refusal itself, which the
+		// driver compares with the model of the parameter validation
+		cfg := sim.GenesisForProfile(profile, hs)
+		p := sim.DefaultNodeParams(sim.Denom)
+		if cfg.NodeParams != nil {
+			p = *cfg.NodeParams
+		}
+		th, _ := sdk.NewDecFromStr(p.ShareThreshold)
+		enc.Encode(sim.M{"genesisRejected": rejected, "params": sim.ParamsJSON(p, th, nil), "hist": hs, "profile": profile})
+		wr.Flush()
 		return
 	}
 	w := sim.NewWorld(c)
